@@ -35,10 +35,20 @@ def check(prop, w, tier, t0):
     sd = lib.seed()
     verdict = lib.Verdict(prop)
     d = w.sub("mc")
-    r = lib.tlc(d, "SqlBind", lib.cfg_of("SqlBind", MAXPARTS=2 if tier == "quick" else 3), timeout=3000)
+    r = lib.tlc(d, "SqlBind", lib.cfg_of("SqlBind", MAXPARTS=2 if tier == "quick" else 3), timeout=3000, extra=["-dump", "states.dump"])
     if not r.ok:
         raise lib.Inconclusive("SqlBind model run failed:\n" + (r.error or ""))
     states, trans = r.distinct, r.generated
+    # direction A: every sequence of flat holes TLC explored, as a chain of Where calls on every target
+    # (the operator of a hole is normalised to one that is valid SQL for its kind)
+    seen, flats = set(), []
+    for st in lib.parse_dump_states(os.path.join(d, "states.dump"), ["flat"]):
+        fl = [dict(f, op=(f["op"] if f["k"] == "slice" else "IN" if f["k"] == "nested" else "=")) for f in (st["flat"] or [])]
+        fl = [f for f in fl if not (f["k"] == "nested" and f["n"] == 0)]          # an empty nested list is not valid SQL
+        key = json.dumps(fl, sort_keys=True)
+        if fl and key not in seen:
+            seen.add(key)
+            flats.append({"flat": fl})
     nprog = 1600 if tier == "quick" else 200000
     nproc = min(lib.NCPU, max(1, nprog // 200))
     d = w.sub("rand")
@@ -48,6 +58,17 @@ def check(prop, w, tier, t0):
         lib.run([vh, "bind-random", "-out", out, "-n", str(nprog // nproc), "-seed", str(sd * 1000 + j)], timeout=6000)
         return lib.read_ndjson(out)
     events = []
+
+    def rep(a):
+        j, part = a
+        f, o = os.path.join(d, "f%d.ndjson" % j), os.path.join(d, "fo%d.ndjson" % j)
+        lib.write_ndjson(f, part)
+        lib.run([vh, "bind-flat", "-cases", f, "-out", o], timeout=6000)
+        return lib.read_ndjson(o)
+    step = max(1, (len(flats) + 7) // 8)
+    with ThreadPoolExecutor(max_workers=8) as ex:
+        for part in ex.map(rep, enumerate([flats[i:i + step] for i in range(0, len(flats), step)])):
+            events += part
     with ThreadPoolExecutor(max_workers=nproc) as ex:
         for part in ex.map(rnd, range(nproc)):
             events += part
@@ -79,7 +100,7 @@ def check(prop, w, tier, t0):
            "rule": ("one evaluation = one statement of one abstract program (chain of Where/Not/Or/Having/Joins/Select/Order/Clauses/Table/Raw/Exec parts with tagged holes; argument kinds scalar, pointer, nullable wrapper, byte slice, nil, slices of length 0..3, nested slices, SQL expressions with own arguments, sub-query handles, named arguments; finishers Find/First/Count/Pluck/Update(s)/Delete/Create struct|slice|map/upsert/Raw/Exec/Rows) on one target (dummy '?' dialect, dummy '$n' dialect, SQLite through the recording driver); every string value is hostile (quotes, backslash, ?, @name, ), --, unicode) and carries a unique marker; non-trivial = at least two holes or a write payload"
                     if prop == "C01" else
                     "one evaluation = one abstract program executed in DryRun session mode, through ToSQL and for real on identical databases; TLC compares driver events and (text, values); non-trivial = at least two holes or a write payload"),
-           "programs": nprog}
+           "programs": nprog, "flat_sequences_replayed": len(flats)}
     lib.write_evidence(prop, tier, "model_checking", cov, time.time() - t0, len(verdict.violations),
                        ["the projection (placeholder scan outside quoted literals, column tag left of a placeholder, INSERT column list <-> VALUES position, marker scan) is trusted",
                         "TLA+ sees value ids, not the hostile bytes; the id <-> value table is part of the projection",
